@@ -4,7 +4,12 @@ and properties.jsonl (everything not claimed is listed under not_applicable with
 from checks.json["_not_applicable"] or a work-in-progress note)."""
 import json, sys, os
 os.chdir('/verif')
-checks = json.load(open('checks.json'))
+import glob
+checks = {}
+for f in sorted(glob.glob('checks.d/C*.json')):
+    checks[os.path.basename(f)[:-5]] = json.load(open(f))
+if os.path.exists('checks.d/_meta.json'):
+    checks.update(json.load(open('checks.d/_meta.json')))
 props = [json.loads(l) for l in open('properties.jsonl')]
 na_reasons = checks.get('_not_applicable', {})
 out = {
